@@ -84,6 +84,65 @@ type c14Case struct {
 	// another one (team, team/alice), names equal to the namespace words (bugs, identities).
 	Names   []string `json:"remote_names,omitempty"`
 	NameSet string   `json:"remote_name_set,omitempty"`
+	// Remote configurations that `git remote` / `git config` accept and that are not "one name, one absolute URL"
+	// (configuration cases; CfgSet labels the configuration in the shape):
+	//   Urls[i]  index of the bare repository remote i points at (empty: remote i has a repository of its own). Remotes
+	//            with equal values are several NAMES of one URL (origin and upstream of one project, an alias).
+	//   Odd[i]   "" | multi-url (a second url added with `git remote set-url --add`) | pushurl (a pushurl different from
+	//            the url) | relative-url (the url is a path relative to the work tree)
+	//   Ghost    one more remote, "ghost", that is configured and was never fetched from nor pushed to:
+	//            "" | never-fetched (its URL is an existing, empty repository) | never-fetched-dead-url (nothing is there)
+	Urls   []int    `json:"remote_urls,omitempty"`
+	Odd    []string `json:"remote_oddities,omitempty"`
+	Ghost  string   `json:"ghost_remote,omitempty"`
+	CfgSet string   `json:"remote_config_set,omitempty"`
+	// cli-rm: a bug is selected with `git-bug bug select` before the removal:
+	//   ""  nothing is selected | other (another bug) | other-twin (the other bug sharing the longest id prefix with the
+	//   victim) | victim (the bug that is removed)
+	Select string `json:"selected,omitempty"`
+	// with a selection: `bug rm` with an id that never existed / a mistyped prefix comes after the removal (and its
+	// repetition) instead of before
+	BadIdsAfter bool `json:"unknown_ids_after_the_removal,omitempty"`
+}
+
+const (
+	c14SharedURL   = "shared-url"
+	c14MultiURL    = "multi-url"
+	c14PushURL     = "pushurl"
+	c14RelativeURL = "relative-url"
+	c14GhostName   = "ghost"
+)
+
+// bareOf is the index of the repository remote i points at.
+func (cs c14Case) bareOf(i int) int {
+	if i < len(cs.Urls) {
+		return cs.Urls[i]
+	}
+	return i
+}
+
+// cfgClass says what is unusual about the configuration of the i-th remote ("plain": nothing; i == Remotes: the ghost).
+func (cs c14Case) cfgClass(i int) string {
+	if i >= cs.Remotes {
+		if cs.Ghost != "" {
+			return cs.Ghost
+		}
+		return "plain"
+	}
+	var cls []string
+	for j := 0; j < cs.Remotes; j++ {
+		if j != i && cs.bareOf(j) == cs.bareOf(i) {
+			cls = append(cls, c14SharedURL)
+			break
+		}
+	}
+	if i < len(cs.Odd) && cs.Odd[i] != "" {
+		cls = append(cls, cs.Odd[i])
+	}
+	if len(cls) == 0 {
+		return "plain"
+	}
+	return strings.Join(cls, "+")
 }
 
 // remoteName is the name of the i-th configured remote.
@@ -173,6 +232,12 @@ type c14Env struct {
 	markerOf  map[string]string // marker token -> bug id
 	victimMk  []string          // marker tokens planted in the victim bug
 	userIdent *identity.Identity
+
+	selected     string // cli-rm with a selection: id of the selected bug (may be the victim)
+	selectedOut  string // what `git-bug bug select` printed (human id and title of the selected bug)
+	asked        string // set around a frame that follows a command which was not the removal of the victim: what was asked
+	skipRound2   bool   // the population is no longer the expected one (a removal without argument was accepted)
+	extraBareURL string // an existing, empty repository: second url / pushurl / url of the ghost
 }
 
 func (e *c14Env) count(k string, n int) { e.res.Counters[k] += n }
@@ -203,6 +268,27 @@ func (e *c14Env) finding(key, what string, aboutRef ...string) {
 			}
 		}
 		key += suffix
+	}
+	if e.cs.CfgSet != "" {
+		// the same for the configuration cases: a finding about a remote-tracking ref of a configured remote names what is
+		// unusual about that remote (nothing for a plain one), every other finding says ":remote-configs=unusual"
+		suffix := ":remote-configs=unusual"
+		if len(aboutRef) > 0 {
+			if remote, _, _, ok := e.remoteOfRef(aboutRef[0]); ok {
+				suffix = ""
+				for i, r := range e.remotes {
+					if r == remote {
+						if cls := e.cs.cfgClass(i); cls != "plain" {
+							suffix = ":remote-config=" + cls
+						}
+					}
+				}
+			}
+		}
+		key += suffix
+	}
+	if e.cs.Select != "" {
+		key += ":selected=" + e.cs.Select
 	}
 	if parts := strings.Split(key, ":"); parts[0] == "remove" {
 		// the state the victim was in when this removal was asked for (nothing appended for an entity that exists locally
@@ -255,7 +341,9 @@ type c14Raw struct {
 	Config  []string
 	Storage []string
 	Objects map[string]struct{}
-	Err     string
+	// content of the selection file, "<none>" without one
+	Selection string
+	Err       string
 }
 
 func gitOut(dir string, args ...string) (string, error) {
@@ -316,6 +404,10 @@ func (e *c14Env) observeRaw() c14Raw {
 		return nil
 	})
 	sort.Strings(o.Storage)
+	o.Selection = "<none>"
+	if sel, ok := e.selectionFile(); ok {
+		o.Selection = sel
+	}
 	s, err = gitOut(e.T.Dir, "cat-file", "--batch-all-objects", "--batch-check=%(objectname)")
 	if err != nil {
 		o.Err = err.Error()
@@ -334,6 +426,9 @@ func (e *c14Env) refClass(ref string) string {
 			if ns == e.ns && strings.TrimPrefix(ref, "refs/"+ns+"/") == e.victim {
 				return "victim-local"
 			}
+			if ns == "bugs" && e.selected != "" && strings.TrimPrefix(ref, "refs/bugs/") == e.selected {
+				return "selected-bug-local"
+			}
 			return "other-" + ns + "-local"
 		}
 	}
@@ -342,6 +437,9 @@ func (e *c14Env) refClass(ref string) string {
 		if _, ns, id, ok := e.remoteOfRef(ref); ok {
 			if ns == e.ns && id == e.victim {
 				return "victim-remote-tracking"
+			}
+			if ns == "bugs" && e.selected != "" && id == e.selected {
+				return "selected-bug-remote-tracking"
 			}
 			return "other-" + ns + "-remote-tracking"
 		}
@@ -381,6 +479,26 @@ func storageOutsideCache(files []string) []string {
 	return out
 }
 
+// withoutSelection drops the selection file (and its directory) from a listing.
+func withoutSelection(files []string) []string {
+	var out []string
+	for _, f := range files {
+		if f != "select/" && f != "select/bugs" {
+			out = append(out, f)
+		}
+	}
+	return out
+}
+
+// selectionFile returns the content of .git/git-bug/select/bugs ("" and false: there is none).
+func (e *c14Env) selectionFile() (string, bool) {
+	data, err := os.ReadFile(filepath.Join(e.T.Dir, ".git", "git-bug", "select", "bugs"))
+	if err != nil {
+		return "", false
+	}
+	return string(data), true
+}
+
 // frame compares two raw observations. expect = c14Gone: the victim's refs must have
 // disappeared between before and after; c14Same: nothing at all may differ; c14GoneOrSame
 // (a refused removal): the victim's refs are not judged, nothing else may differ.
@@ -410,13 +528,24 @@ func (e *c14Env) frame(stage string, before, after c14Raw, expect c14Expect) {
 					if remote, _, _, ok := e.remoteOfRef(ref); ok && len(e.cs.Names) > 0 {
 						e.count("victim_refs_removed_by_remote_name_class/"+e.cs.Kind+"/"+c14NameClass(remote), 1)
 					}
+					if remote, _, _, ok := e.remoteOfRef(ref); ok && e.cs.CfgSet != "" {
+						for i, r := range e.remotes {
+							if r == remote {
+								e.count("victim_refs_removed_by_remote_config_class/"+e.cs.Kind+"/"+e.cs.cfgClass(i), 1)
+							}
+						}
+					}
 				}
 				continue
 			}
+			only := fmt.Sprintf("although only %s %s was removed", e.cs.Kind, e.victim)
+			if e.asked != "" {
+				only = "after " + e.asked
+			}
 			if !still {
-				e.finding(kp+"other-ref-deleted:"+cls, fmt.Sprintf("%s: ref %s (%s) disappeared although only %s %s was removed", reader.name, ref, cls, e.cs.Kind, e.victim), ref)
+				e.finding(kp+"other-ref-deleted:"+cls, fmt.Sprintf("%s: ref %s (%s) disappeared %s", reader.name, ref, cls, only), ref)
 			} else if ah != h {
-				e.finding(kp+"other-ref-moved:"+cls, fmt.Sprintf("%s: ref %s (%s) moved %s -> %s although only %s %s was removed", reader.name, ref, cls, h, ah, e.cs.Kind, e.victim), ref)
+				e.finding(kp+"other-ref-moved:"+cls, fmt.Sprintf("%s: ref %s (%s) moved %s -> %s %s", reader.name, ref, cls, h, ah, only), ref)
 			} else {
 				e.count("other_refs_unchanged", 1)
 				e.seen("protected_ref_classes", cls)
@@ -436,8 +565,21 @@ func (e *c14Env) frame(stage string, before, after c14Raw, expect c14Expect) {
 	} else {
 		e.count("config_keys_unchanged", len(after.Config))
 	}
-	if b, a := storageOutsideCache(before.Storage), storageOutsideCache(after.Storage); !equalStrings(b, a) {
+	b, a := storageOutsideCache(before.Storage), storageOutsideCache(after.Storage)
+	if e.selected != "" && e.selected == e.victim {
+		// the selection names the removed bug itself: whether a removal keeps or clears it is not stated
+		b, a = withoutSelection(b), withoutSelection(a)
+		e.count("selection_of_the_victim_not_judged", 1)
+	}
+	if !equalStrings(b, a) {
 		e.finding(kp+"storage-changed", fmt.Sprintf("files of .git/git-bug outside cache/ and indexes/ changed: before %v after %v", b, a))
+	}
+	if e.selected != "" && e.selected != e.victim {
+		if before.Selection != after.Selection {
+			e.finding(kp+"selection-changed", fmt.Sprintf("the selection (.git/git-bug/select/bugs) changed from %q to %q although only %s %s was to be removed", before.Selection, after.Selection, e.cs.Kind, e.victim))
+		} else {
+			e.count("selection_unchanged", 1)
+		}
 	}
 	lost := 0
 	for obj := range before.Objects {
@@ -923,17 +1065,36 @@ func (e *c14Env) build() error {
 	if len(cs.Names) > 0 && len(cs.Names) != cs.Remotes {
 		return fmt.Errorf("%d remote names for %d remotes", len(cs.Names), cs.Remotes)
 	}
-	for i := 0; i < cs.Remotes; i++ {
-		name, dirName := cs.remoteName(i), "remote-"+cs.remoteName(i)
-		if len(cs.Names) > 0 {
-			dirName = fmt.Sprintf("remote-%d", i) // the name may hold '/'
-			e.seen("unusual_remote_names", fmt.Sprintf("%s (%s)", name, c14NameClass(name)))
-		}
-		b, err := mk(dirName, true)
+	if (len(cs.Urls) > 0 && len(cs.Urls) != cs.Remotes) || (len(cs.Odd) > 0 && len(cs.Odd) != cs.Remotes) {
+		return fmt.Errorf("%d urls / %d oddities for %d remotes", len(cs.Urls), len(cs.Odd), cs.Remotes)
+	}
+	if cs.CfgSet != "" {
+		// an existing repository that never holds anything: the second url, the pushurl, the url of the ghost
+		x, err := mk("remote-extra", true)
 		if err != nil {
 			return err
 		}
-		bares = append(bares, b)
+		e.extraBareURL = x.Tested.GetLocalRemote()
+		_ = x.Repo.Close()
+	}
+	bareByIdx := map[int]*world.Replica{}
+	for i := 0; i < cs.Remotes; i++ {
+		name, dirName := cs.remoteName(i), "remote-"+cs.remoteName(i)
+		if len(cs.Names) > 0 || cs.CfgSet != "" {
+			dirName = fmt.Sprintf("remote-%d", cs.bareOf(i)) // the name may hold '/'; several names may share a repository
+		}
+		if len(cs.Names) > 0 {
+			e.seen("unusual_remote_names", fmt.Sprintf("%s (%s)", name, c14NameClass(name)))
+		}
+		b := bareByIdx[cs.bareOf(i)]
+		if b == nil {
+			var err error
+			if b, err = mk(dirName, true); err != nil {
+				return err
+			}
+			bareByIdx[cs.bareOf(i)] = b
+		}
+		bares = append(bares, b) // bares[i]: the repository of remote i (the same one for several names of one URL)
 		e.remotes = append(e.remotes, name)
 		if cs.Holds&(1<<i) != 0 {
 			e.holds = append(e.holds, name)
@@ -942,10 +1103,25 @@ func (e *c14Env) build() error {
 			if err := r.Tested.AddRemote(name, b.Tested.GetLocalRemote()); err != nil {
 				return fmt.Errorf("AddRemote(%q): %w", name, err)
 			}
+			// a second url and a pushurl are there from the start: everything the history does goes through such a remote
+			// (the relative url is written at the end of the history: this process does not run in the work tree)
+			var err error
+			switch {
+			case i < len(cs.Odd) && cs.Odd[i] == c14MultiURL:
+				_, err = gitOut(r.Dir, "remote", "set-url", "--add", name, e.extraBareURL)
+			case i < len(cs.Odd) && cs.Odd[i] == c14PushURL:
+				_, err = gitOut(r.Dir, "remote", "set-url", "--push", name, e.extraBareURL)
+			}
+			if err != nil {
+				return err
+			}
+		}
+		if cs.CfgSet != "" {
+			e.seen("remote_configuration_classes", fmt.Sprintf("%s/%s/holds-victim=%v", cs.Kind, cs.cfgClass(i), cs.Holds&(1<<i) != 0))
 		}
 	}
 	defer func() {
-		for _, b := range bares {
+		for _, b := range bareByIdx {
 			_ = b.Repo.Close()
 		}
 	}()
@@ -1248,7 +1424,14 @@ func (e *c14Env) r2Joins(h string) error {
 
 // settle: everything that the remotes have is fetched and merged, so that a later MergeAll has nothing to do.
 func (e *c14Env) settle() error {
-	for _, name := range e.remotes {
+	for i, name := range e.remotes {
+		if e.staleAlias(i) {
+			// another NAME of a repository that holds the victim, through which the victim was neither pushed nor fetched: it is
+			// not fetched from any more. All that T knows through this name was pushed by T before the victim was published
+			// (no other entity is edited elsewhere), so a merge without fetch still has nothing to do.
+			e.seen("history", "a-name-of-a-holding-repository-not-fetched-since-the-victim-was-published")
+			continue
+		}
 		ml := e.T.Pull(name)
 		if ml.Err != nil {
 			return fmt.Errorf("settle pull %s: %w", name, ml.Err)
@@ -1263,6 +1446,20 @@ func (e *c14Env) settle() error {
 		}
 	}
 	return nil
+}
+
+// staleAlias: remote i does not hold the victim (by the case) and is another name of a repository that does.
+func (e *c14Env) staleAlias(i int) bool {
+	cs := e.cs
+	if i >= cs.Remotes || cs.Holds&(1<<i) != 0 {
+		return false
+	}
+	for j := 0; j < cs.Remotes; j++ {
+		if j != i && cs.bareOf(j) == cs.bareOf(i) && cs.Holds&(1<<j) != 0 {
+			return true
+		}
+	}
+	return false
 }
 
 // buildFetchedUnmerged: everything but the victim is published and settled; then the victim is created on a second
@@ -1372,6 +1569,58 @@ func (e *c14Env) buildHost(mk func(string, bool) (*world.Replica, error), bares 
 				return err
 			}
 		}
+	}
+	return e.finishRemoteConfig()
+}
+
+// finishRemoteConfig (configuration cases): the relative urls are written, the ghost remote is added.
+func (e *c14Env) finishRemoteConfig() error {
+	cs, T := e.cs, e.T
+	if cs.CfgSet == "" {
+		return nil
+	}
+	for i := 0; i < cs.Remotes; i++ {
+		if i >= len(cs.Odd) || cs.Odd[i] != c14RelativeURL {
+			continue
+		}
+		name := e.remotes[i]
+		rel := fmt.Sprintf("../remote-%d", cs.bareOf(i)) // relative to the work tree T
+		if _, err := gitOut(T.Dir, "config", "remote."+name+".url", rel); err != nil {
+			return err
+		}
+		// the configuration works for git: a fetch of the git-bug namespaces through the relative url has nothing new to bring
+		before, err := gitraw.RefTable(T.Repo, "refs/")
+		if err != nil {
+			return err
+		}
+		if _, err := gitOut(T.Dir, "fetch", name, "refs/bugs/*:refs/remotes/"+name+"/bugs/*", "refs/identities/*:refs/remotes/"+name+"/identities/*"); err != nil {
+			return fmt.Errorf("stock git cannot fetch through the relative url: %w", err)
+		}
+		after, err := gitraw.RefTable(T.Repo, "refs/")
+		if err != nil {
+			return err
+		}
+		if e.staleAlias(i) {
+			return fmt.Errorf("case list: a relative url on a name that must not be fetched")
+		}
+		if !equalStrings(sortedKV(before), sortedKV(after)) {
+			return fmt.Errorf("the fetch through the relative url of %s changed the ref table", name)
+		}
+		e.count("fetches_by_stock_git_through_a_relative_url", 1)
+	}
+	if cs.Ghost != "" {
+		url := e.extraBareURL
+		if cs.Ghost == "never-fetched-dead-url" {
+			url = filepath.Join(e.w.Dir, "no-such-repository")
+		}
+		if err := T.Tested.AddRemote(c14GhostName, url); err != nil {
+			return fmt.Errorf("AddRemote(ghost): %w", err)
+		}
+		e.remotes = append(e.remotes, c14GhostName) // index cs.Remotes: never holds anything
+		e.seen("remote_configuration_classes", fmt.Sprintf("%s/%s/holds-victim=false", cs.Kind, cs.Ghost))
+	}
+	if s, err := gitOut(T.Dir, "config", "--local", "--get-regexp", `^remote\.`); err == nil {
+		e.seen("remote_sections_sample", cs.CfgSet+": "+strings.Join(strings.Fields(strings.ReplaceAll(s, e.w.Dir, "<dir>")), " "))
 	}
 	return nil
 }
@@ -1760,23 +2009,22 @@ func (e *c14Env) runCliRm() {
 		e.inconclusive(fmt.Sprintf("before the removal the cache does not serve the victim: %v", beforeCache.Probes))
 		return
 	}
+	if e.cs.Select != "" && !e.selectBug() {
+		return
+	}
 	before := e.observeRaw()
 	if !e.preconditions(before) {
 		return
 	}
+	// a removal that names no bug, or several, must remove nothing
 	if s := e.maxShared(); s >= 1 {
-		r := e.cli("bug", "rm", e.victim[:s])
-		if r.TimedOut {
-			e.inconclusive("git-bug bug rm timed out")
+		if !e.refusedRm("ambiguous-prefix", e.victim[:s], before) {
 			return
 		}
-		e.seen("ambiguous_prefix_removal", fmt.Sprintf("cli exit %d", r.Code))
-		if r.Code == 0 {
-			e.finding("remove:bug:cli-rm:ambiguous-prefix:accepted", fmt.Sprintf("`git-bug bug rm %s` matches several bugs and exited 0: %s", e.victim[:s], r.Out))
-		}
-		_ = e.T.Reopen(bug.ClockLoader)
-		e.frame("ambiguous-prefix", before, e.observeRaw(), c14Same)
 		e.count("ambiguous_prefix_removals_refused", 1)
+	}
+	if e.cs.Select != "" && !e.cs.BadIdsAfter && !e.unknownIds(before) {
+		return
 	}
 	prefix := e.removalPrefix()
 	r := e.cli("bug", "rm", prefix)
@@ -1803,6 +2051,206 @@ func (e *c14Env) runCliRm() {
 		}
 		return "exit non-zero"
 	})
+	if e.cs.Select != "" {
+		e.afterRemovalWithSelection()
+	}
+}
+
+// refusedRm: `git-bug bug rm arg` where arg names no bug, or several. Whatever the command answers, nothing may differ from base.
+func (e *c14Env) refusedRm(stage, arg string, base c14Raw) bool {
+	r := e.cli("bug", "rm", arg)
+	_ = e.T.Reopen(bug.ClockLoader)
+	if r.TimedOut {
+		e.inconclusive("git-bug bug rm timed out")
+		return false
+	}
+	if stage == "ambiguous-prefix" {
+		e.seen("ambiguous_prefix_removal", fmt.Sprintf("cli exit %d", r.Code))
+	}
+	e.seen("removal_of_nothing_outcomes", fmt.Sprintf("%s/selected=%s: cli exit %d", stage, map[bool]string{true: "nothing", false: e.cs.Select}[e.cs.Select == ""], r.Code))
+	if r.Code == 0 && stage == "ambiguous-prefix" {
+		e.finding("remove:bug:cli-rm:ambiguous-prefix:accepted", fmt.Sprintf("`git-bug bug rm %s` matches several bugs and exited 0: %s", arg, r.Out))
+	}
+	e.asked = fmt.Sprintf("`git-bug bug rm %s` (%s: it names no single bug) exited %d", arg, stage, r.Code)
+	e.frame(stage, base, e.observeRaw(), c14Same)
+	e.asked = ""
+	return true
+}
+
+// unknownIds: `bug rm` with an id that never existed, and with a mistyped prefix of the victim's id: they match no bug.
+func (e *c14Env) unknownIds(base c14Raw) bool {
+	if !e.refusedRm("unknown-id", e.absentId(64), base) || !e.refusedRm("mistyped-prefix", e.absentId(8), base) {
+		return false
+	}
+	e.count("removals_of_an_unknown_id_with_a_selection", 2)
+	e.seen("removals_of_an_unknown_id", map[bool]string{true: "after the removal of the victim", false: "before the removal of the victim"}[e.cs.BadIdsAfter])
+	return true
+}
+
+// absentId returns n characters that are the prefix of no bug id: the first n-1 characters of the victim's id and a last
+// character chosen so that nothing matches (for n = 64 an id that never existed, differing from the victim's in its last
+// character only).
+func (e *c14Env) absentId(n int) string {
+	for _, c := range "0123456789abcdef" {
+		cand := e.victim[:n-1] + string(c)
+		hit := false
+		for _, id := range e.bugIds {
+			if strings.HasPrefix(id, cand) {
+				hit = true
+			}
+		}
+		if !hit {
+			return cand
+		}
+	}
+	return strings.Repeat("0", n) // 16 bugs sharing n-1 characters: not in this world
+}
+
+// selectBug runs `git-bug bug select` for the bug the case names.
+func (e *c14Env) selectBug() bool {
+	others := e.remaining(e.bugIds)
+	switch e.cs.Select {
+	case "victim":
+		e.selected = e.victim
+	case "other-twin":
+		best := -1
+		for _, id := range others {
+			if k := refmodel.SharedPrefixLen(id, e.victim); k > best {
+				best, e.selected = k, id
+			}
+		}
+	default:
+		if len(others) > 0 {
+			e.selected = others[len(others)/2]
+		}
+	}
+	if e.selected == "" {
+		e.inconclusive("no bug to select")
+		return false
+	}
+	r := e.cli("bug", "select", e.selected)
+	_ = e.T.Reopen(bug.ClockLoader)
+	if sel, ok := e.selectionFile(); r.TimedOut || r.Code != 0 || !ok || sel != e.selected {
+		e.inconclusive(fmt.Sprintf("`git-bug bug select %s` exited %d, selection file %q: %s", e.selected, r.Code, sel, r.Out))
+		return false
+	}
+	e.selectedOut = r.Out
+	e.count("selections_made", 1)
+	e.seen("selections", fmt.Sprintf("%s/shares-%d-characters-with-the-victim", e.cs.Select, refmodel.SharedPrefixLen(e.selected, e.victim)))
+	return true
+}
+
+// refsOnly keeps what a command that is not a removal must leave alone in any case: refs, configuration, objects.
+func refsOnly(o c14Raw, like c14Raw) c14Raw {
+	o.Storage, o.Selection = like.Storage, like.Selection
+	return o
+}
+
+// afterRemovalWithSelection: the victim is gone (removed twice, cache rebuilt, merged without fetch) and a selection was
+// made before. What the selection then does to commands that take their bug from it.
+func (e *c14Env) afterRemovalWithSelection() {
+	if e.failedStage != "" || len(e.res.Inconclusive) > 0 {
+		return
+	}
+	kp := "remove:bug:cli-rm:"
+	base := e.observeRaw()
+	if e.cs.BadIdsAfter && (!e.unknownIds(base) || e.failedStage != "") {
+		return
+	}
+	show := func() (cliResult, bool) {
+		r := e.cli("bug", "show")
+		_ = e.T.Reopen(bug.ClockLoader)
+		if r.TimedOut {
+			e.inconclusive("git-bug bug show timed out")
+		}
+		return r, !r.TimedOut
+	}
+	if e.selected != e.victim {
+		// the selected bug is still there and still selected: a command without id works on it
+		r, ok := show()
+		if !ok {
+			return
+		}
+		human := e.selected[:7]
+		if r.Code != 0 || !strings.Contains(r.Out, human) {
+			e.finding(kp+"selection-after:selected-bug-not-shown", fmt.Sprintf("bug %s was selected before bug %s was removed; afterwards `git-bug bug show` (no id) exits %d: %s", e.selected, e.victim, r.Code, r.Out))
+			return
+		}
+		e.count("selected_bug_still_shown_after_the_removal", 1)
+		e.frame("selection-after", base, e.observeRaw(), c14Same)
+	}
+	// a removal without any id. The documented usage is `rm BUG_ID`; whatever the command does then, only a bug that the
+	// user designated (the selected one) may go, and a command that fails must not have changed anything.
+	r := e.cli("bug", "rm")
+	_ = e.T.Reopen(bug.ClockLoader)
+	if r.TimedOut {
+		e.inconclusive("git-bug bug rm timed out")
+		return
+	}
+	sel := map[bool]string{true: "dangling (the selected bug was removed)", false: "another bug"}[e.selected == e.victim]
+	e.seen("removal_without_id_outcomes", fmt.Sprintf("selection: %s: cli exit %d", sel, r.Code))
+	now := e.observeRaw()
+	if r.Code != 0 {
+		if e.selected == e.victim {
+			e.frame("no-id", base, refsOnly(now, base), c14Same) // a dangling selection may be cleared
+		} else {
+			e.frame("no-id", base, now, c14Same)
+		}
+		e.count("removals_without_id_refused", 1)
+	} else {
+		// accepted: judged as a removal of the selected bug (its refs are not judged, nothing else may differ)
+		victim := e.victim
+		e.victim = e.selected
+		e.frame("no-id", base, refsOnly(now, base), c14GoneOrSame)
+		e.victim = victim
+		e.skipRound2 = true
+		e.count("removals_without_id_accepted", 1)
+		return
+	}
+	if e.selected == e.victim {
+		// the selection names a bug that is gone: recorded, and the next commands must not be hurt by it
+		_, dangling := e.selectionFile()
+		e.seen("selection_of_the_removed_bug", fmt.Sprintf("after the removal and `bug rm` without id: selection file present=%v", dangling))
+		r, ok := show()
+		if !ok {
+			return
+		}
+		_, still := e.selectionFile()
+		e.seen("dangling_selection_next_command", fmt.Sprintf("`bug show` without id: exit %d, selection file afterwards present=%v, output: %s", r.Code, still, firstLine(r.Out)))
+		if r.Code == 0 {
+			e.finding(kp+"selection-after:removed-bug-shown", fmt.Sprintf("bug %s was selected and removed; afterwards `git-bug bug show` (no id) exits 0: %s", e.victim, r.Out))
+			return
+		}
+		e.frame("selection-after", base, refsOnly(e.observeRaw(), base), c14Same)
+		// selecting another bug works again
+		if others := e.remaining(e.bugIds); len(others) > 0 {
+			r := e.cli("bug", "select", others[0])
+			_ = e.T.Reopen(bug.ClockLoader)
+			sel, _ := e.selectionFile()
+			e.seen("dangling_selection_next_command", fmt.Sprintf("`bug select <another bug>`: exit %d, selection file names it=%v", r.Code, sel == others[0]))
+			if !r.TimedOut && (r.Code != 0 || sel != others[0]) {
+				e.finding(kp+"selection-after:cannot-select-again", fmt.Sprintf("bug %s was selected and removed; afterwards `git-bug bug select %s` exits %d, selection file %q: %s", e.victim, others[0], r.Code, sel, r.Out))
+				return
+			}
+			if r2, ok := show(); ok && (r2.Code != 0 || !strings.Contains(r2.Out, others[0][:7])) {
+				e.finding(kp+"selection-after:selected-bug-not-shown", fmt.Sprintf("after the removal of the selected bug %s, bug %s was selected; `git-bug bug show` (no id) exits %d: %s", e.victim, others[0], r2.Code, r2.Out))
+				return
+			}
+			e.frame("selection-after", base, refsOnly(e.observeRaw(), base), c14Same)
+			e.count("selections_made_again_after_a_dangling_one", 1)
+		}
+	}
+}
+
+func firstLine(s string) string {
+	s = strings.TrimSpace(s)
+	if i := strings.IndexByte(s, '\n'); i >= 0 {
+		s = s[:i]
+	}
+	if len(s) > 160 {
+		s = s[:160]
+	}
+	return s
 }
 
 func (e *c14Env) wipeEndState(stage string, raw c14Raw, r cliResult) bool {
@@ -2010,6 +2458,12 @@ func c14Run(cs c14Case) c14Result {
 	if cs.NameSet != "" {
 		res.Shape += "/remote-names=" + cs.NameSet
 	}
+	if cs.CfgSet != "" {
+		res.Shape += "/remote-config=" + cs.CfgSet
+	}
+	if cs.Select != "" {
+		res.Shape += "/selected=" + cs.Select + map[bool]string{true: "/unknown-ids-after", false: ""}[cs.BadIdsAfter]
+	}
 	if err := e.build(); err != nil {
 		res.HarnessError = "build: " + err.Error()
 		return finish()
@@ -2032,10 +2486,12 @@ func c14Run(cs c14Case) c14Result {
 	if (cs.State == c14RemovedRefetched || cs.State == c14RemovedRepulled) && cs.Api != "cli-wipe" {
 		// the remotes still hold the entity: it is fetched (pulled) again, then removed again through the same API
 		switch {
-		case !res.Nontrivial || len(res.Inconclusive) > 0:
-			e.inconclusive("the first removal was not carried out: nothing to fetch again")
 		case len(res.Findings) > 0:
 			e.count("second_rounds_skipped_after_findings_of_the_first", 1)
+		case !res.Nontrivial || len(res.Inconclusive) > 0:
+			e.inconclusive("the first removal was not carried out: nothing to fetch again")
+		case e.skipRound2:
+			e.count("second_rounds_skipped_after_an_accepted_removal_without_id", 1)
 		default:
 			e.round = 2
 			if err := e.comeBack(); err != nil {
@@ -2116,7 +2572,153 @@ func c14Cases(r *mon.Run) []c14Case {
 		out = append(out, cs)
 	}
 	out = append(out, c14StateCases(r, len(out))...)
-	return append(out, c14NameCases(r, len(out))...)
+	out = append(out, c14NameCases(r, len(out))...)
+	out = append(out, c14ConfigCases(r, len(out))...)
+	return append(out, c14SelectCases(r, len(out))...)
+}
+
+// c14ConfigSets: remote configurations that `git remote` produces and that are not "every name has a URL of its own":
+// two and three NAMES of one URL (origin and upstream of one project; with the default names origin < origin2 < peer every
+// pair of positions occurs), a remote with a second url, with a pushurl, with a relative url, and a remote that was
+// configured and never fetched.
+var c14ConfigSets = []struct {
+	label   string
+	remotes int
+	urls    []int
+	odd     []string
+	ghost   string
+}{
+	{"two-names", 2, []int{0, 0}, nil, ""},
+	{"multi-url", 2, nil, []string{c14MultiURL, ""}, ""},
+	{"two-names-and-another", 3, []int{0, 0, 1}, nil, ""},
+	{"never-fetched", 1, nil, nil, "never-fetched"},
+	{"another-and-two-names", 3, []int{0, 1, 1}, nil, ""},
+	{"pushurl", 2, nil, []string{"", c14PushURL}, ""},
+	{"two-names-apart", 3, []int{0, 1, 0}, nil, ""},
+	{"relative-url", 2, nil, []string{c14RelativeURL, ""}, ""},
+	{"three-names", 3, []int{0, 0, 0}, nil, ""},
+	{"never-fetched-dead-url", 2, nil, nil, "never-fetched-dead-url"},
+	{"mixed", 3, nil, []string{c14MultiURL, c14PushURL, c14RelativeURL}, "never-fetched"},
+}
+
+// c14ConfigCases: the removals of the lists above in repositories with such remote configurations - bugs and identities,
+// every API, victims in every state. Template j%13 meets configuration j%11 (coprime): thorough sees every pair.
+// Which names hold the victim (it was pushed or fetched through them): all of them, or (names of one URL, no wipe) only the
+// last, or only the first, of the names of that URL. (Appended to the list: the cases above are unchanged.)
+func c14ConfigCases(r *mon.Run, start int) []c14Case {
+	type tpl struct{ api, kind, state string }
+	cycle := []tpl{
+		{"entity", "bug", ""}, {"cache", "identity", ""}, {"cli-wipe", "bug", ""}, {"entity", "identity", c14FetchedUnmerged},
+		{"cache", "bug", c14RemovedRepulled}, {"entity", "identity", ""}, {"cli-rm", "bug", ""}, {"entity", "bug", c14RemovedRefetched},
+		{"cache", "bug", ""}, {"cli-wipe", "identity", ""}, {"entity", "bug", c14FetchedUnmerged},
+		{"entity", "identity", c14RemovedRepulled}, {"cli-rm", "bug", c14RemovedRepulled},
+	}
+	n := r.Pick(2*len(cycle), len(c14ConfigSets)*len(cycle))
+	var out []c14Case
+	for j := 0; j < n; j++ {
+		i := start + j
+		rng := mon.Rng(r.Seed, "c14-config-spec", j)
+		t := cycle[j%len(cycle)]
+		set := c14ConfigSets[(j+int(r.Seed))%len(c14ConfigSets)]
+		cs := c14Case{
+			Name: fmt.Sprintf("case-%d", i), Seed: r.Seed, Idx: i,
+			Kind: t.kind, Api: t.api, State: t.state,
+			Remotes: set.remotes, Urls: set.urls, Odd: set.odd, Ghost: set.ghost, CfgSet: set.label,
+			Holds:   1<<set.remotes - 1,
+			Point:   (j / len(cycle)) % 3,
+			Others:  2 + rng.Intn(4),
+			Prefix:  []string{"full", "shortest", "human"}[rng.Intn(3)],
+			UserSet: rng.Intn(2) == 0 || t.api == "cli-rm" || t.api == "cli-wipe" || (t.api == "cache" && t.state == c14RemovedRepulled),
+		}
+		cs.SharedK = []int{1 + rng.Intn(3)}
+		// this process does not run in the work tree: it cannot fetch again through a relative url
+		if cs.State == c14RemovedRefetched || cs.State == c14RemovedRepulled {
+			for _, o := range cs.Odd {
+				if o == c14RelativeURL {
+					cs.State = ""
+				}
+			}
+		}
+		if len(set.urls) > 0 && t.api != "cli-wipe" {
+			// the names of one URL: group[0] < group[1] (< group[2])
+			var group []int
+			for a := 0; a < set.remotes; a++ {
+				for b := 0; b < set.remotes; b++ {
+					if a != b && set.urls[a] == set.urls[b] {
+						group = append(group, a)
+						break
+					}
+				}
+			}
+			switch mode := (j / len(c14ConfigSets)) % 3; mode {
+			case 1: // through the last name only
+				for _, g := range group[:len(group)-1] {
+					cs.Holds &^= 1 << g
+				}
+			case 2: // through the first name only
+				for _, g := range group[1:] {
+					cs.Holds &^= 1 << g
+				}
+			}
+		}
+		switch t.api {
+		case "cli-wipe":
+			cs.Unmerged = j%2 == 0
+			cs.Bridge = rng.Intn(2) == 0
+		case "cli-rm":
+			if rng.Intn(2) == 0 {
+				cs.Select = "other"
+				cs.BadIdsAfter = rng.Intn(2) == 0
+			}
+		case "entity":
+			cs.PreCache = rng.Intn(4) == 0
+		}
+		out = append(out, cs)
+	}
+	return out
+}
+
+// c14SelectCases: `git-bug bug rm` in a repository where a bug was chosen with `git-bug bug select` - another bug, the
+// other bug whose id shares the longest prefix with the victim's, or the victim itself - over every remote configuration,
+// for a victim removed for the first time and for one removed, pulled again and removed again. Around the removal: `bug rm`
+// with an ambiguous prefix, with an id that never existed, with a mistyped prefix, the removal repeated, and (last) `bug rm`
+// without any id. (Appended to the list: the cases above are unchanged.)
+func c14SelectCases(r *mon.Run, start int) []c14Case {
+	type rh struct{ remotes, holds int }
+	var combos []rh
+	for n := 0; n <= 3; n++ {
+		for h := 0; h < 1<<n; h++ {
+			combos = append(combos, rh{n, h})
+		}
+	}
+	selects := []string{"other", "victim", "other-twin"}
+	n := r.Pick(12, 6*len(combos)) // 15 configurations; 6 = |selects| x |states|
+	var out []c14Case
+	for j := 0; j < n; j++ {
+		i := start + j
+		rng := mon.Rng(r.Seed, "c14-select-spec", j)
+		co := combos[(j*4+int(r.Seed))%len(combos)] // 4 and 15 are coprime
+		cs := c14Case{
+			Name: fmt.Sprintf("case-%d", i), Seed: r.Seed, Idx: i,
+			Kind: "bug", Api: "cli-rm", Select: selects[j%3],
+			Remotes: co.remotes, Holds: co.holds,
+			Point:   (j / 3) % 3,
+			Others:  2 + rng.Intn(5),
+			Prefix:  []string{"full", "shortest", "human"}[rng.Intn(3)],
+			UserSet: true,
+			Bridge:  rng.Intn(3) == 0,
+			// the ids that match nothing: before the removal, or after it and its repetition, in turn for every selection
+			BadIdsAfter: (j/6+j%3)%2 == 1,
+		}
+		if (j/3)%2 == 1 && co.holds != 0 {
+			cs.State = c14RemovedRepulled
+		}
+		for k := 1 + rng.Intn(2); k > 0; k-- {
+			cs.SharedK = append(cs.SharedK, 1+rng.Intn(3))
+		}
+		out = append(out, cs)
+	}
+	return out
 }
 
 // c14NameSets: remote names that git accepts (`git remote add` of git 2.39 takes every one of them, and every set as a
@@ -2275,6 +2877,9 @@ func runC14(tier, replay string) int {
 	}
 	refLessJudged := map[string]int{}
 	namedRemoved := map[string]int{} // <kind>/<class of the remote's name> -> remote-tracking refs of a victim seen to disappear
+	cfgRemoved := map[string]int{}   // <kind>/<class of the remote's configuration> -> the same
+	cfgWiped := map[string]int{}     // configuration set -> clean wipes
+	selJudged := map[string]int{}    // selection -> CLI removals followed through to the removal without id
 	outcomes := runBatchesRetry[c14Case, c14Result](r, "c14", cases, 3, 3*time.Minute)
 	for i, oc := range outcomes {
 		cs := cases[i]
@@ -2314,6 +2919,24 @@ func runC14(tier, replay string) int {
 				}
 			}
 		}
+		if cs.CfgSet != "" {
+			r.Count("cases_by_remote_config_set/"+cs.CfgSet+"/"+cs.Api+"/"+cs.Kind, 1)
+			if cs.Api == "cli-wipe" && res.Counters["wipe_end_states_clean"] > 0 {
+				r.Count("clean_wipes_with_unusual_remote_configs/"+cs.CfgSet, 1)
+				cfgWiped[cs.CfgSet]++
+			}
+			for k, v := range res.Counters {
+				if strings.HasPrefix(k, "victim_refs_removed_by_remote_config_class/") {
+					cfgRemoved[strings.TrimPrefix(k, "victim_refs_removed_by_remote_config_class/")] += v
+				}
+			}
+		}
+		if cs.Select != "" {
+			r.Count("cases_by_selection/"+cs.Select+"/"+map[bool]string{true: "local", false: cs.State}[cs.State == ""], 1)
+			if res.Nontrivial && len(res.Inconclusive) == 0 {
+				selJudged[cs.Select] += res.Counters["removals_without_id_refused"] + res.Counters["removals_without_id_accepted"]
+			}
+		}
 		r.Seen("history_points", fmt.Sprintf("%s/point%d", cs.Api, cs.Point))
 		for k, v := range res.Counters {
 			r.Count(k, v)
@@ -2334,7 +2957,7 @@ func runC14(tier, replay string) int {
 			fmt.Printf("replay of %s:\n%s\n", cs.Name, b)
 		}
 	}
-	min := r.Pick(80, 450)
+	min := r.Pick(100, 600)
 	if replay != "" {
 		min = 0
 	} else {
@@ -2351,13 +2974,32 @@ func runC14(tier, replay string) int {
 				}
 			}
 		}
+		for _, want := range []string{c14SharedURL, c14MultiURL, c14PushURL, c14RelativeURL} {
+			kinds := 0
+			for _, kind := range []string{"bug", "identity"} {
+				for k, v := range cfgRemoved {
+					if v > 0 && strings.HasPrefix(k, kind+"/") && strings.Contains("+"+strings.TrimPrefix(k, kind+"/")+"+", "+"+want+"+") {
+						kinds++
+						break
+					}
+				}
+			}
+			if kinds < r.Pick(1, 2) {
+				r.Inconclusive(fmt.Sprintf("too few removals of an entity held by a remote whose configuration is of class %q were carried out and judged (kinds of entity: %d)", want, kinds))
+			}
+		}
+		for _, sel := range []string{"other", "other-twin", "victim"} {
+			if selJudged[sel] == 0 {
+				r.Inconclusive("no CLI removal with selection " + sel + " was followed through to the removal without id")
+			}
+		}
 		for _, kind := range []string{"bug", "identity"} {
 			if refLessJudged[kind] == 0 {
 				r.Inconclusive("no removal of a " + kind + " without local ref (fetched and never merged, or removed and fetched again) was carried out and judged")
 			}
 		}
 	}
-	return r.Finish("before/after observation (ref table by gitraw and by git for-each-ref, .git/config key multiset, .git/git-bug listing, object set, cache answers, index hits) around a removal through bug.Remove / identity.Remove, RepoCache.{Bugs,Identities}().Remove(prefix), `git-bug bug rm` and `git-bug wipe`, in repositories with 0..3 remotes of which every subset holds the entity, 2..10 other entities with engineered shared id prefixes, at three points of an edit/push/pull history; followed by a second removal, reopen, rebuild from scratch and MergeAll without fetch. The removed entity is in one of four states: present locally (with 0..3 remote-tracking refs); fetched from 1..3 remotes and never merged (remote-tracking refs only); removed, fetched again, removed again (remote-tracking refs only); removed, pulled again, removed again. The remotes are named origin, origin2, peer, or (name cases) by 2..3 names of a set of unusual names git accepts: with one or several '/', with '.', '-', '_', a name that is a string or path prefix of another (team, team/alice, team/alice2, team/alice/laptop), the namespace words (bugs, identities) as name or path element; refs/remotes/<name>/<namespace>/<id> is recognised by the configured names, not by position. A removal of an entity without local ref that returns an error (the cache API and the CLI cannot resolve such an entity) is recorded as refused and only its frame is judged. A case is non-trivial when the removal was carried out and everything could be observed; distinct = distinct (kind, API, history point, #remotes, #holding remotes, longest engineered shared prefix, cross-namespace twin, prefix mode, user identity set, bridge config, fetched-unmerged entity, pre-built cache, state of the victim, set of remote names)",
+	return r.Finish("before/after observation (ref table by gitraw and by git for-each-ref, .git/config key multiset, .git/git-bug listing, object set, cache answers, index hits) around a removal through bug.Remove / identity.Remove, RepoCache.{Bugs,Identities}().Remove(prefix), `git-bug bug rm` and `git-bug wipe`, in repositories with 0..3 remotes of which every subset holds the entity, 2..10 other entities with engineered shared id prefixes, at three points of an edit/push/pull history; followed by a second removal, reopen, rebuild from scratch and MergeAll without fetch. The removed entity is in one of four states: present locally (with 0..3 remote-tracking refs); fetched from 1..3 remotes and never merged (remote-tracking refs only); removed, fetched again, removed again (remote-tracking refs only); removed, pulled again, removed again. The remotes are named origin, origin2, peer, or (name cases) by 2..3 names of a set of unusual names git accepts: with one or several '/', with '.', '-', '_', a name that is a string or path prefix of another (team, team/alice, team/alice2, team/alice/laptop), the namespace words (bugs, identities) as name or path element; refs/remotes/<name>/<namespace>/<id> is recognised by the configured names, not by position. Configuration cases: 11 remote configurations that `git remote` produces and that are not one-name-one-absolute-URL: two and three NAMES of one URL (origin and upstream of one project; the victim pushed/fetched through all the names, through the last only, through the first only), a remote with a second url (`set-url --add`), with a pushurl different from its url, with a url relative to the work tree, a remote that was configured and never fetched (its URL an empty repository, or nothing at all), and a mix - with every API and victim state. Selection cases: `git-bug bug rm` after `git-bug bug select` of another bug, of the other bug sharing the longest id prefix with the victim, or of the victim itself; around the removal `bug rm` with an ambiguous prefix, with an id that never existed and with a mistyped prefix (before the removal, or after it and its repetition), the removal repeated, `bug show` without id (the selected bug must still be served), and last `bug rm` without id (refused: nothing may differ; accepted: only the selected bug may be gone); the refs of the selected bug are a class of their own (selected-bug-local / selected-bug-remote-tracking) and the selection file must keep its content unless it names the victim. A removal of an entity without local ref that returns an error (the cache API and the CLI cannot resolve such an entity) is recorded as refused and only its frame is judged. A case is non-trivial when the removal was carried out and everything could be observed; distinct = distinct (kind, API, history point, #remotes, #holding remotes, longest engineered shared prefix, cross-namespace twin, prefix mode, user identity set, bridge config, fetched-unmerged entity, pre-built cache, state of the victim, set of remote names, remote configuration, selection and position of the unknown ids)",
 		min, []string{
 			"ids cannot be chosen: the configuration (sizes, shared prefix lengths, remotes) is a function of the seed, the concrete ids are not",
 			"removed identities never authored anything (removing an author breaks its bugs by design, the statement leaves that to the caller)",
@@ -2367,6 +3009,9 @@ func runC14(tier, replay string) int {
 			"removal through the entity API is judged on repositories whose cache is (re)built afterwards; what a cache built *before* such a removal serves is recorded, not judged",
 			"for wipe only the stated end state is judged (no ref under the four namespaces, no git-bug.* key, no file under .git/git-bug); git objects are never expected to disappear",
 			"remote names: only names `git remote add` accepts; no configuration holds two remotes a, b with b starting with a+\"/bugs\" or a+\"/identities\" (git-bug's ref layout refs/remotes/<remote>/<namespace>/<id> cannot tell such a pair apart)",
+			"remote configurations: the second url and the pushurl are there from the start (git-bug's own fetch and push go through such a remote: go-git uses the first url for both and ignores pushurl, which is not judged here); the relative url is written after the history was built and proved usable by a fetch with stock git, because the monitor does not run inside the work tree; a victim removed and fetched again is not combined with a relative url for the same reason",
+			"several names of one URL: a name that (by the case) does not hold the victim is not fetched from once the victim is published; everything known through it was pushed by the repository itself before, so a merge without fetch still has nothing to do",
+			"selection: when the selection names the removed bug itself, whether the removal keeps or clears the selection file is not judged (the statement is silent); a dangling selection must only not hurt the next commands (`bug show` without id must not serve the removed bug, selecting another bug must work). `bug rm` without id: the documented usage is `rm BUG_ID`; a refusal must change nothing, an accepted one may only remove the selected bug",
 			"full-text assertions use planted marker tokens (zqNNx?k) that the English analyzer leaves alone",
 		})
 }
